@@ -33,7 +33,7 @@ VARIANTS = {
              ["-fsanitize=memory"], ["-O1", "-fsanitize=memory", "-fsanitize-recover=memory"]),
     "wrap": ("gcc", ["-O2"],
              ["-Wl,--wrap=malloc,--wrap=mmap,--wrap=mremap,--wrap=munmap,--wrap=open,"
-              "--wrap=fstat,--wrap=close,--wrap=fopen,--wrap=fwrite,--wrap=fclose"],
+              "--wrap=fstat,--wrap=close,--wrap=fopen,--wrap=fwrite,--wrap=fclose,--wrap=read,--wrap=write"],
              ["-O2", "-DHEXEC_WRAP"]),
     "tsan": ("gcc", ["-O1", "-fsanitize=thread"], ["-fsanitize=thread", "-pthread"],
              ["-O1", "-fsanitize=thread"]),
